@@ -93,6 +93,7 @@ type ContractDB struct {
 	Ghosts map[string]*GhostVar
 	Consts map[string]*ConstDef
 	OnAlloc     []*OnAlloc
+	FileImports map[string]map[string]string // package path -> import alias (in its contract files) -> import path
 	GlobalDecls []*ConstDef // package-level variables whose initial value is obtained by eval
 	EvalConsts  []*ConstDef // evalconst NAME = <Go expr> (evaluated by running the package)
 	Order  []string // lemma order
@@ -256,6 +257,17 @@ func canonKey(decl string, pkgPath string) string {
 }
 
 func (db *ContractDB) loadFile(pkg *packages.Package, f *ast.File, fname string) {
+	if db.FileImports == nil {
+		db.FileImports = map[string]map[string]string{}
+	}
+	if db.FileImports[pkg.PkgPath] == nil {
+		db.FileImports[pkg.PkgPath] = map[string]string{}
+	}
+	for _, im := range f.Imports {
+		if im.Name != nil && im.Name.Name != "_" && im.Name.Name != "." {
+			db.FileImports[pkg.PkgPath][im.Name.Name] = strings.Trim(im.Path.Value, "\"")
+		}
+	}
 	lines := contractLines(f)
 	var cur *Contract
 	var curLoop *LoopC
